@@ -31,14 +31,14 @@ CLAIMED.update({
  "C15": ("(i) SMT kernels: for every identifier / label / attribute value / attribute name / URI of <=N code points, the label and URL strings the real prov.dot code passes to pydot are single well-formed DOT IDs (Graphviz scanner rules for quoted strings; HTML-like labels whose markup skeleton is exactly the template's and whose entity-decoded data is exactly the source) - one z3 query per call site covering all strings; (ii) path-complete exploration of prov_to_dot over documents x 16 option combinations x directions, each witness rendered by real pydot and parsed by Graphviz (dot -Tdot_json) and checked for nodes/clusters/edge paths/annotations", "4/C15",
          "kernels: for-all within N (quoted 6/12, HTML 3/6); structure: one representative per path, Graphviz 2.43 as acceptance oracle; hostile label/value texts from a catalogue; one known finding (top-level node drawn inside a bundle cluster)"),
  "C14": ("path-complete exploration of prov_to_graph / graph_to_prov: the solver enumerates every combination of relation kind, declared / undeclared / coinciding endpoints, one-ended relations, identified relations, repeated identifiers and two element kinds under one identifier within the bounds; on each path the real networkx graph is checked (nodes, inferred nodes, one directed edge per two-ended relation, inverse conversion = unified elements + those relations, strict multiset)", "4/C14",
-         "PATH_COMPLETE: names are concrete catalogue values (networkx hashes nodes); bounds: 3-5 elements, <=2 relations (15 kinds alone, 4 pairs; all 120 pairs in thorough)"),
- "C17": ("symbolic execution of the real ProvDocument.serialize with a symbolic destination name over in-memory OS stand-ins: the solver yields one file name per path of the name handling (stdlib urlparse traced too); every witness is replayed on the real file system x 4 formats x 5 fault points (k-th stream write, final move) x with/without pre-existing file with fault-injecting proxies, checking exact target, completeness, no stray files and all-or-nothing", "4/C17",
+         "PATH_COMPLETE: names are concrete catalogue values (networkx hashes nodes); bounds: 3-5 elements, <=2 relations (15 kinds alone, 40 (quick) / all 120 (thorough) kind pairs), relations before/after declarations, shared relation identifiers; the harness makes finite choices only, so Stage A is a pure enumerator and the conversion runs once per configuration on the unmodified build"),
+ "C17": ("symbolic execution of the real ProvDocument.serialize with a symbolic destination name over in-memory OS stand-ins: the solver yields one file name per path of the name handling (stdlib urlparse traced too); every witness (plus a catalogue of 18 names no branch singles out: percent escapes, spaces, non-ASCII ...) is replayed on the real file system x 4 formats x 6 fault points (k-th stream write, flush/close of a buffered stream, final move) x with/without pre-existing file with fault-injecting proxies, checking exact target, completeness, untouched sibling files (name.tmp, name.bak ...), no stray files and all-or-nothing", "4/C17",
          "PATH_COMPLETE w.r.t. the name handling; fault model: the default temp dir is another device (copy not atomic, rename fails with EXDEV), atomic rename either happens or not; names of 1-3 (quick) / 1-4 (thorough) code points"),
  "C13": ("(i) bounded model checking: for ordered pairs of pure-Python exporters (PROV-JSON container encoder, ==, unified, flattened, lookups) on documents with symbolic contents z3 shows strict content, record order, registered and default namespaces identical before/after and the container unchanged; (ii) on every construction-path witness the unmodified build runs all 15 exporters (json +options, xml +/-force_types, provn, rdf, graph, dot, ==, hash, unified, flattened, lookups) and all 225 ordered pairs: snapshot unchanged, identical text on repetition and on a twin document built by the same calls (RDF: canonicalised graphs)", "4/C13",
          "pure exporters for-all within bounds; C-backed exporters (lxml, rdflib, networkx, pydot) on one representative per construction path; determinism across processes / hash seeds outside the claim"),
- "C16": ("exhaustive enumeration, by the path search, of the 960 configurations format x destination kind x source kind x prov.read with/without format x 6 non-ASCII document variants; each configuration is executed on the unmodified build (real streams and files) and compared strictly", "4/C16",
+ "C16": ("exhaustive enumeration, by the path search, of the 1440 configurations format x destination kind x source kind x prov.read with/without format x 9 document variants (non-ASCII content; three > 16 KiB multi-byte documents; path destinations also over a longer pre-existing file); each configuration is executed on the unmodified build (real streams and files) and compared strictly", "4/C16",
          "the weakest use of the technique: no symbolic content, the solver only enumerates the finite configuration space (stated in DESIGN.md); RDF compared against unified()"),
- "C07": ("exhaustive enumeration, by the path search, of the structural space of PROV-O-expressible documents (14 relation kinds x identified/anonymous x optional-argument masks x 0-2 extra attributes of 11 kinds x element attributes/times x document/bundle x a second relation); every configuration is written as TriG and read back by the real rdflib stack on the unmodified build and compared (set-based, strict) with unified()", "4/C07",
+ "C07": ("exhaustive enumeration, by the path search, of the structural space of PROV-O-expressible documents (14 relation kinds x identified/anonymous x optional-argument masks x 0-2 extra attributes of 13 kinds x element attributes/times x document/bundle x all 182 ordered pairs of relation kinds); every configuration is written as TriG and read back by the real rdflib stack on the unmodified build and compared (set-based, strict) with unified()", "4/C07",
          "weakest fit (stated in DESIGN.md): rdflib is entered at the first statement, so there is no symbolic content - the solver only enumerates the finite structural space; the quantifier's exclusions are assumptions; one known finding (attributed-anonymous + plain relation of one kind on one subject)"),
  "C11": ("bounded model checking of the PROV-JSON decoder on foreign input: a specification-driven generator builds container trees the writer never produces (20 value spellings, array-wrapped single values, multi-entity memberships, record arrays, bundle prefix blocks) with symbolic contents; z3 shows on every path: library error, or strict content == the tree's denotation by an independent reader and decode(encode(d)) == d; witnesses also cross JSON text and JSON->XML; PROV-XML: choice-complete specification-driven texts on the real lxml stack", "4/C11",
          "JSON container level for-all within bounds; XML and cross-format on witnesses (PATH_COMPLETE); NOT claimed: single-point mutations of the 398+45 corpus files (file enumeration, not a solver question)"),
